@@ -4,7 +4,7 @@ LEVEL = "other"
 MANIFEST = {
     "engine": "symrun",
     "category": "other",
-    "text": "Lemma chain on the real Krige code (all variants: Simple, Ordinary, Universal with uninterpreted or 'linear' drift functions, ExtDrift, Detrended, universal + external drift, biased + drift; generic model class; all values symbolic) for a target that IS conditioning point i with zero measurement error (model without nugget, or exact=True with cond_err='nugget' and a positive nugget): L1 the right-hand side handed to the compiled kernel equals column i of the kriging matrix (distance of a point to itself is 0, covariance at 0 equals the diagonal entry, unbiased / drift / external-drift rows identical, anisometrize(isometrize(x)) = x re-proved for the real matrices); L2 K k = e_i from the assumed inverse contract (K.A)_ri = delta_ri; L3 raw field = cond_i from the kernel postcondition; L4 k^T K k = k_i = A_ii = sill, hence krige_var = max(sill - sill, 0) = 0; L5 the returned field trend + denormalize(mean + cond_i) equals the conditioning VALUE through the mean / trend / normalizer round trip (generic normalizer with the C18 round-trip contract, LogNormal via exp(log y) = y). krige_var >= 0 for every variant and error mode, also as stored and as returned with post-processing; krige_var <= sill for simple / detrended kriging (nugget, scalar, per-point error, exact) from the ASSUMED fact k^T K k >= 0. The cond_err setter, set_condition and the constructors reject explicit measurement errors in exact mode (ValueError, value not stored), accept 'nugget', and non-exact objects store explicit errors / reject a wrong count.",
+    "text": "Lemma chain on the real Krige code (all variants: Simple, Ordinary, Universal with uninterpreted or 'linear' drift functions, ExtDrift, Detrended, universal + external drift, biased + drift; generic model class; all values symbolic) for a target that IS conditioning point i with zero measurement error (model without nugget, or exact=True with cond_err='nugget' and a positive nugget): L1 the right-hand side handed to the compiled kernel equals column i of the kriging matrix (distance of a point to itself is 0, covariance at 0 equals the diagonal entry, unbiased / drift / external-drift rows identical, anisometrize(isometrize(x)) = x re-proved for the real matrices); L2 K k = e_i from the assumed inverse contract (K.A)_ri = delta_ri; L3 raw field = cond_i from the kernel postcondition; L4 k^T K k = k_i = A_ii = sill, hence krige_var = max(sill - sill, 0) = 0; L5 the returned field trend + denormalize(mean + cond_i) equals the conditioning VALUE through the mean / trend / normalizer round trip (generic normalizer with the C18 round-trip contract, LogNormal via exp(log y) = y). The same chain holds on an object whose set_condition ran fit_normalizer / fit_variogram with ghost optimisers assigning arbitrary in-bounds parameters incl. the anisotropy ratio (exact mode, dim 2, 2 points). krige_var >= 0 for every variant and error mode, also as stored and as returned with post-processing; krige_var <= sill for simple / detrended kriging (nugget, scalar, per-point error, exact) from the ASSUMED fact k^T K k >= 0. The cond_err setter, set_condition and the constructors reject explicit measurement errors in exact mode (ValueError, value not stored), accept 'nugget', and non-exact objects store explicit errors / reject a wrong count.",
     "level_note": "category 'other': values are unbounded symbolic reals but shapes are enumerated (n <= 3 conditioning points, dim 1-2, dim 3 in the thorough tier; which point i: first and last) -- these obligations are reported BOUNDED, not proved; only the cond_err rejection obligations (no shape dependence beyond the error vector length) count as discharged. Assumed and logged: T5 inverse contract K.A = I for the non-singular system (natively checked per sampled instance); cor(0) = 1 (T8/C03); 'inverse of a positive definite matrix is positive definite: k^T K k >= 0' (T8/C02, natively checked per sampled instance) for the sill bound; denormalize(normalize(y)) = y for the generic normalizer (proved per class in C18). Exactness is stated for IDENTICAL positions (the 1e-8 coincidence window of cov_nugget is not exact interpolation) and, in exact mode, for conditioning points outside each other's window (non-singular system). NOT DECIDABLE with contracts and listed as residue: 'coincident conditioning points solved with the pseudo-inverse act as one point carrying their mean' is a statement about scipy.linalg.pinv (SVD cut-offs) on a singular matrix, for which no contract is available; ONE bounded native obligation (3 layouts, sampled positions / values, real pinv and compiled kernels) stands in and is reported bounded_ok, never as proved. Floats as reals (T1): the actual round-off of the returned value at a conditioning point (about 1e-12 natively) is not modelled.",
     "technique": "contract-based deductive verification: symbolic execution of the real Python methods, contract stubs for the matrix inverse and the compiled kernels, lemma chains with BY clauses and generalisation discharged by ring normal form / z3 / cvc5; native replay of failed obligations; one bounded native probe",
 }
